@@ -430,6 +430,13 @@ func runC06(res *Result, tier string, seed int64, replay string) {
 			run("hostile-default", tag+"/"+a+"="+short(v, 12), src, true)
 		}
 	})
+	// ---- every element as the root of the document (what a truncated input looks like) ------------------------------------
+	for _, tag := range append(append([]string{}, bodyTags...), "mj-head", "mj-title", "mj-preview", "mj-attributes", "mj-font", "mj-style", "mj-breakpoint", "mj-all", "mj-class", "mj-raw", "div", "mjml", "mj-unknown") {
+		for _, inner := range []string{"", "T", "<mj-text>T</mj-text>"} {
+			src := "<" + tag + ">" + inner + "</" + tag + ">"
+			run("root", tag+"/"+short(inner, 8), src, true)
+		}
+	}
 	// ---- byte fuzz ---------------------------------------------------------------------------------------------------
 	nf := 20000
 	if tier == "thorough" {
